@@ -18,6 +18,7 @@ import Driver.C18
 import Driver.Sched
 import Driver.C09
 import Driver.C20
+import Driver.C08
 
 open Corerad
 
@@ -35,7 +36,8 @@ def handlers : List (String × (List String → List String → Option Verdict))
   ("sch6", Driver.Sched.sch6), ("sch7", Driver.Sched.sch7),
   ("adv6", Driver.Sched.adv6), ("adv7", Driver.Sched.adv7), ("adv9", Driver.Sched.adv7),
   ("lst", Driver.C09.lst),
-  ("bt", Driver.C20.bt), ("sv", Driver.C20.sv)
+  ("bt", Driver.C20.bt), ("sv", Driver.C20.sv),
+  ("shut", Driver.C08.shut)
 ]
 
 def runLine (line : String) : String :=
